@@ -245,7 +245,7 @@ class Built:
         cons = self.cons.get(ref, [])
         is_in = prod is None
         is_out = ref in self.outset
-        name = ref.replace('.', '_')
+        name = (self.desc.get('names') or {}).get(ref, ref.replace('.', '_'))
         if is_in or is_out:
             owner_path = None          # owned by the HWSystem, visible as a Dut port
             w = self.hw.wire(name, width)
@@ -289,7 +289,7 @@ class Built:
         ins = [self.wire(r) for r in n['ins']]
         outs = [self.wire('n%d.%d' % (nid, j)) for j in range(len(n['ow']))]
         with seams.quiet():
-            obj = k.build(parent, 'u%d' % nid, ins, outs, n['p'])
+            obj = k.build(parent, (self.desc.get('inst_names') or {}).get(str(nid), 'u%d' % nid), ins, outs, n['p'])
         self.objs[nid] = obj
         self._flush_drivers()
         return obj
